@@ -5,9 +5,10 @@
   a zero guess, are accepted as solved — `Ok(0)` with `x` untouched — by all four solvers (for
   BiCG this needs the initial residual test of the `fix:` commit), under the stated hypotheses on
   the norm and the comparison: `norm2 0 = 0`, `0 / d = 0`, `le 0 tol`.
-  NOT proved (DESIGN §6 C09): convergence within O(n) iterations on SPD / diagonally dominant
-  systems and agreement with the direct solution — finite-termination theory of Krylov methods in
-  exact arithmetic and class (F) in floating point; carried by correspondence + sampled oracle only.
+  NOT proved here: convergence and accuracy. C09G proves finite termination, exactness and optimality
+  of CG on SPD systems in exact arithmetic; C09A the forward-error clause (success ⇒ within κ·tol of
+  the direct solution) for all four solvers over ℝ. Convergence of BiCG / BiCGSTAB / QMR is false in
+  general (Lanczos breakdown: known finding) and everything in floating point is class (F).
 -/
 import Ohsl.Props.C08
 set_option linter.unusedSectionVars false
